@@ -114,8 +114,26 @@ def edSecDecode (c : BackendCfg) (raw : Bytes) : Res Bytes :=
 /-- canonical encoding of the point at infinity as a "key" (only reachable when a decoder accepts it) -/
 def p384InfinityKey : Bytes := [0]
 
+/-- alternative encodings of a valid point that some decoders also accept (and normalise):
+    compact (05 ‖ x, y := the smaller root) and hybrid (06/07 ‖ x ‖ y with the parity in the tag) -/
+def p384AltForm (c : BackendCfg) (raw : Bytes) : Option Bytes :=
+  match raw with
+  | 5 :: x =>
+    if c.pkCompact ∧ x.length = 48 then
+      match p384Decode (2 :: x), p384Decode (3 :: x) with
+      | .point P, .point Q => if P.y ≤ Q.y then some (2 :: x) else some (3 :: x)
+      | _, _ => none
+    else none
+  | t :: xy =>
+    if c.pkHybrid ∧ (t = 6 ∨ t = 7) ∧ xy.length = 96 then
+      match p384Decode (4 :: xy) with
+      | .point P => if P.y % 2 = t.toNat % 2 then some (4 :: xy) else none
+      | _ => none
+    else none
+  | [] => none
+
 def p384PubDecode (c : BackendCfg) (raw : Bytes) : Res Bytes :=
-  match p384Decode raw with
+  match p384Decode ((p384AltForm c raw).getD raw) with
   | .point P => match p384Compress P with | some b => .ok b | none => .err .invalidKey
   | .infinity => if c.pkRejectsInfinity then .err .invalidKey else .ok p384InfinityKey
   | .invalid => .err .invalidKey
